@@ -37,15 +37,15 @@ TECHNIQUE = "explicit-state BFS over registration histories on the real import t
 ASSUMPTIONS = ["library identity is the Windows one: case-insensitive name, '.dll' appended when there is no extension",
                "future behaviour of the table depends on earlier registrations of a library only through their number"]
 
-NAMES_QUICK = ["a.dll", "b.dll", "A.DLL", "a"]
-NAMES_THOROUGH = ["a.dll", "b.dll", "A.DLL", "a", "c.dll"]
+NAMES = ["a.dll", "b.dll", "A.DLL", "a", "c.dll"]
 FUNCS = ["f", "g", 1, 2]
 MANY = [253, 254, 255, 256, 300]
-SEEDS = ["libimp", "libimp_pe", "libimp_elf"]
+# a seed = (class, how many of NAMES are offered): 4 names = two libraries with aliases, 5 names = three libraries
+SEEDS = [("libimp", 4), ("libimp_pe", 4), ("libimp_elf", 4), ("libimp", 5)]
+# depth bound per seed (None = not run in that tier): the subclasses only inherit the two methods (libimp_elf is an
+# empty subclass), fewer levels are spent on them
+DEPTH = {"quick": [5, 4, 4, None], "thorough": [6, 5, 4, 5]}
 REGION = 256  # functions that fit in one 0x1000 region at 0x10 bytes per stub: only used to *classify* witnesses in signatures
-
-# depth bound per class: the subclasses only inherit the two methods (libimp_elf is an empty subclass), fewer levels are spent on them
-DEPTH = {"quick": {"libimp": 5, "libimp_pe": 4, "libimp_elf": 4}, "thorough": {"libimp": 6, "libimp_pe": 5, "libimp_elf": 4}}
 
 _TIER = {"quick": True}
 
@@ -63,15 +63,19 @@ def _ident(name):
 
 def make(seed):
     import logging
-    if seed == "libimp_pe":
+    seed = tuple(seed)
+    cname = seed[0]
+    if cname == "libimp_pe":
         from miasm.jitter.loader.pe import libimp_pe as cls
-    elif seed == "libimp_elf":
+    elif cname == "libimp_elf":
         from miasm.jitter.loader.elf import libimp_elf as cls
     else:
         from miasm.jitter.loader.utils import libimp as cls
     logging.getLogger("loader_common").setLevel(logging.ERROR)
     st = State()
     st.seed = seed
+    st.seed_idx = SEEDS.index(seed)
+    st.names = NAMES[:seed[1]]
     st.n = 0
     st.impl = cls()
     st.name2lib = {}     # name string as given -> library index
@@ -196,9 +200,10 @@ def invariant(st):
 
 
 def events(st):
-    if st.broken or st.n >= DEPTH["quick" if _TIER["quick"] else "thorough"][st.seed] or invariant(st):
+    bound = DEPTH["quick" if _TIER["quick"] else "thorough"][st.seed_idx]
+    if st.broken or bound is None or st.n >= bound or invariant(st):
         return []
-    evs = [("base", n) for n in (NAMES_QUICK if _TIER["quick"] else NAMES_THOROUGH)]
+    evs = [("base", n) for n in st.names]
     for li in range(len(st.bases)):
         for f in FUNCS:
             evs.append(("func", li, f))
@@ -222,13 +227,13 @@ def run(ctx):
     import sys
     _TIER["quick"] = ctx.quick
     depths = DEPTH[ctx.tier]
-    depth = max(depths.values())
-    seeds = SEEDS
+    depth = max(d for d in depths if d is not None)
+    seeds = SEEDS   # all seeds are always passed so that seed indexes in recorded cases are stable; unused ones stay at depth 0
     tctx = TallyCtx(ctx)
     cov = bfs.explore(tctx, sys.modules[__name__], max_depth=depth, seeds=seeds, chunk=4)
     cov["outcome_counts"] = tctx.table()
-    cov["bounds"] = {"depth_per_class": depths, "names": NAMES_QUICK if ctx.quick else NAMES_THOROUGH, "funcs": FUNCS,
-                     "macro_sizes": MANY, "classes": seeds}
+    cov["bounds"] = {"seeds_class_and_number_of_names": [list(x) for x in SEEDS], "depth_per_seed": depths, "names": NAMES,
+                     "funcs": FUNCS, "macro_sizes": MANY}
     return cov
 
 
